@@ -8,7 +8,7 @@ for d in seeded/*/; do
   out=$(tools/try_mutant.sh "/verif/$d/patch.diff" "$p" "$TIER" 2>&1)
   rc=$(echo "$out" | sed -n 's/^rc=//p')
   sigs=$(echo "$out" | sed -n 's/^  signature: //p' | sort -u | head -4 | tr '\n' ';')
-  find /verif/replays -name '*.json' -delete
+  find /verif/sim/target/mutant-out -name '*.json' -delete
   python3 - "$d/meta.json" "$p" "$TIER" "$rc" "$sigs" <<'PY'
 import json,sys
 f,p,tier,rc,sigs=sys.argv[1:6]
